@@ -4,6 +4,7 @@ package main
 
 import (
 	"fmt"
+	"os"
 	"go/ast"
 	"go/token"
 	"go/types"
@@ -38,6 +39,7 @@ type State struct {
 	vars    map[*types.Var]Value
 	heap    map[string]string // heap key -> current SMT term
 	written map[string]bool   // heap keys / var ids written (tracked for loop frames)
+	nonFresh map[string]int   // base keys written -> smallest allocation stamp of the objects written (0 = pre-existing / unknown)
 	wvars   map[*types.Var]bool
 	defers  []deferred
 	dead    bool
@@ -57,7 +59,7 @@ type deferred struct {
 
 func (s *State) clone() *State {
 	n := &State{assumes: s.assumes, vars: make(map[*types.Var]Value, len(s.vars)), heap: make(map[string]string, len(s.heap)),
-		written: s.written, wvars: s.wvars, dead: s.dead, epochs: s.epochs}
+		written: s.written, wvars: s.wvars, dead: s.dead, epochs: s.epochs, nonFresh: s.nonFresh}
 	for k, v := range s.vars {
 		n.vars[k] = v
 	}
@@ -145,6 +147,30 @@ type Ctx struct {
 	frameCallee []string
 	variantAt   map[int]string
 	useIx       bool
+	loopHeads   map[int]*State
+	branchOrd   map[*ast.BranchStmt]int
+	loopNames   map[int]string
+	seenAlloc   map[string]bool
+	atHit       map[string]bool
+	curLoop     int
+	loopIdxVar  map[int]*types.Var
+	loopHavoc   bool
+	lastNonFresh map[string]bool
+	allocSeq    map[string]int
+}
+
+// noteWrite records a write for the function frame and, inside loops, whether it may hit a pre-existing object.
+func (c *Ctx) noteWrite(s *State, key, ref string) {
+	c.frameWrite(key, ref)
+	if s.nonFresh != nil {
+		stamp := c.allocSeq[ref]
+		if strings.HasPrefix(ref, "(sub.") {
+			stamp = c.allocSeq[innerRef(ref)]
+		}
+		if old, ok := s.nonFresh[key]; !ok || stamp < old {
+			s.nonFresh[key] = stamp
+		}
+	}
 }
 
 // frameWrite records a write to heap key `key` at object `ref` for the frame check.
@@ -483,7 +509,7 @@ func zeroValue(t types.Type) Value {
 			return BoolV{"false"}
 		}
 		if isStringType(t) {
-			return IntV{"str.empty"}
+			return IntV{"gs.empty"}
 		}
 		return IntV{"0"}
 	}
@@ -536,6 +562,7 @@ func (c *Ctx) assumeTyped(s *State, v Value, t types.Type) {
 	switch u := t.Underlying().(type) {
 	case *types.Slice, *types.Array:
 		s.assume(c.sliceWF(v.(SliceV)))
+		c.allocFact(s, v.(SliceV).Ref)
 	case *types.Struct:
 		st := v.(StructV)
 		for i := 0; i < u.NumFields(); i++ {
@@ -546,6 +573,7 @@ func (c *Ctx) assumeTyped(s *State, v Value, t types.Type) {
 			s.assume(rangeFact(t, iv.T))
 			if isRefLike(t) {
 				s.assume(le("0", iv.T))
+				c.allocFact(s, iv.T)
 			}
 		}
 	}
@@ -574,6 +602,9 @@ func (c *Ctx) heapGet(s *State, key, sort string) string {
 			epoch = m.id
 		}
 	}
+	if os.Getenv("GOWP_DEBUG") != "" && c.dry == 0 && epoch != 0 && strings.HasPrefix(key, "M.hrpc.RPCResult") {
+		fmt.Fprintf(os.Stderr, "heapGet %s epoch %d marks %v\n", key, epoch, s.epochs)
+	}
 	name := fmt.Sprintf("%s~e%d", sanitize(key), epoch)
 	c.declare(name, sort)
 	c.noteByteMem(key, name)
@@ -599,12 +630,29 @@ func (c *Ctx) heapSet(s *State, key, sort, term string) {
 	}
 }
 
+// heapSetQuiet updates engine-internal ghost state (not part of any frame).
+func (c *Ctx) heapSetQuiet(s *State, key, sort, term string) {
+	c.sorts[key] = sort
+	if len(term) > 60 {
+		n := c.fresh(sanitize(key), sort)
+		s.assume(eq(n, term))
+		term = n
+	}
+	s.heap[key] = term
+	if s.written != nil {
+		s.written[key] = true
+	}
+}
+
 func (c *Ctx) heapHavoc(s *State, key, sort string) {
 	c.sorts[key] = sort
 	s.heap[key] = c.fresh(sanitize(key), sort)
 	c.noteByteMem(key, s.heap[key])
 	if s.written != nil {
 		s.written[key] = true
+	}
+	if s.nonFresh != nil && !c.loopHavoc {
+		s.nonFresh[key] = 0
 	}
 }
 
@@ -621,7 +669,18 @@ func keyMatches(key, pat string) bool {
 
 // pendingHavoc havocs every key matching the pattern, including keys not materialised yet.
 func (c *Ctx) pendingHavoc(s *State, prefix string) {
+	if keyMatches("X.alloc", prefix) {
+		// the allocated set only grows
+		oldAl := c.heapGet(s, "X.alloc", sA1)
+		defer func() {
+			newAl := c.heapGet(s, "X.alloc", sA1)
+			s.assume(fmt.Sprintf("(forall ((r Int)) (! (=> (= (select %s r) 1) (= (select %s r) 1)) :pattern ((select %s r))))", oldAl, newAl, oldAl))
+		}()
+	}
 	c.nfresh++
+	if os.Getenv("GOWP_DEBUG") != "" && c.dry == 0 {
+		fmt.Fprintf(os.Stderr, "pendingHavoc %q id=%d\n", prefix, c.nfresh)
+	}
 	s.epochs = append(append([]epochMark(nil), s.epochs...), epochMark{prefix, c.nfresh})
 	for k := range s.heap {
 		if keyMatches(k, prefix) {
@@ -630,6 +689,9 @@ func (c *Ctx) pendingHavoc(s *State, prefix string) {
 	}
 	if s.written != nil {
 		s.written["*"+prefix] = true
+	}
+	if s.nonFresh != nil {
+		s.nonFresh[prefix] = 0
 	}
 }
 
@@ -665,7 +727,7 @@ func (c *Ctx) readField(s *State, ref string, st types.Type, f *types.Var) Value
 }
 
 func (c *Ctx) writeField(s *State, ref string, st types.Type, f *types.Var, v Value) {
-	c.frameWrite(fieldKey(st, f.Name()), ref)
+	c.noteWrite(s, fieldKey(st, f.Name()), ref)
 	if c.isStructByValueField(f) {
 		c.storePtr(s, c.subObject(s, ref, st, f), f.Type(), v)
 		return
@@ -709,7 +771,7 @@ func (c *Ctx) readElem(s *State, sv SliceV, idx string, elem types.Type) Value {
 }
 
 func (c *Ctx) writeElem(s *State, sv SliceV, idx string, elem types.Type, v Value) {
-	c.frameWrite(memKey(elem), sv.Ref)
+	c.noteWrite(s, memKey(elem), sv.Ref)
 	ls := leaves(elem)
 	ts := flatten(v, elem)
 	for i, l := range ls {
@@ -731,7 +793,7 @@ func (c *Ctx) allocSlice(s *State, elem types.Type, length, capacity string, zer
 		if zero {
 			z := "0"
 			if isStringType(elem) {
-				z = "str.empty"
+				z = "gs.empty"
 				c.useStr()
 			}
 			content = "((as const (Array Int Int)) " + z + ")"
@@ -746,9 +808,30 @@ func (c *Ctx) allocSlice(s *State, elem types.Type, length, capacity string, zer
 	return SliceV{ref, "0", length, capacity}
 }
 
-// freshRefFacts: a freshly allocated ref differs from every ref-valued entry variable.
+// allocFact: every reference read from the state denotes nil or an already allocated object (ghost set X.alloc).
+func (c *Ctx) allocFact(s *State, ref string) {
+	if _, lit := isNumLit(ref); lit {
+		return
+	}
+	if c.seenAlloc == nil {
+		c.seenAlloc = map[string]bool{}
+	}
+	al := c.heapGet(s, "X.alloc", sA1)
+	key := al + "|" + ref
+	if c.seenAlloc[key] && false {
+		return
+	}
+	s.assume(or(eq(ref, "0"), eq(sel(al, ref), "1")))
+}
+
+// freshRefFacts: a freshly allocated ref was not allocated before (hence differs from every reference read so far).
 func (c *Ctx) freshRefFacts(s *State, ref string) {
 	c.freshRefs[ref] = true
+	c.nfresh++
+	c.allocSeq[ref] = c.nfresh
+	al := c.heapGet(s, "X.alloc", sA1)
+	s.assume(eq(sel(al, ref), "0"))
+	c.heapSetQuiet(s, "X.alloc", sA1, store(al, ref, "1"))
 	if c.entry == nil {
 		return
 	}
@@ -772,7 +855,7 @@ func (c *Ctx) freshRefFacts(s *State, ref string) {
 }
 
 func (c *Ctx) useStr() {
-	c.declareFun("str.len", 1, sInt)
-	c.declareFun("str.at", 2, sInt)
-	c.declare("str.empty", sInt)
+	c.declareFun("gs.len", 1, sInt)
+	c.declareFun("gs.at", 2, sInt)
+	c.declare("gs.empty", sInt)
 }
